@@ -90,7 +90,7 @@ var prop = hx.Prop[Case]{
 		}
 		if rapid.Bool().Draw(t, "concurrent") {
 			c.Inject = rapid.SliceOfN(rapid.Custom(func(t *rapid.T) Inj {
-				return Inj{At: rapid.IntRange(0, 9).Draw(t, "at"), Pt: rapid.SampledFrom([]string{"", "scan", "scan"}).Draw(t, "pt"), K: rapid.SampledFrom([]string{"deliver", "remove", "purge", "purge"}).Draw(t, "k"),
+				return Inj{At: rapid.IntRange(0, 9).Draw(t, "at"), Pt: rapid.SampledFrom([]string{"", "scan", "scan"}).Draw(t, "pt"), K: rapid.SampledFrom([]string{"deliver", "remove", "purge", "purge", "purge-refill"}).Draw(t, "k"),
 					Box: rapid.IntRange(0, c.NBoxes-1).Draw(t, "ibox"), N: rapid.IntRange(0, 12).Draw(t, "n"), Here: rapid.Bool().Draw(t, "here")}
 			}), 1, 4).Draw(t, "inject")
 		}
@@ -210,11 +210,20 @@ func run(c Case) *hx.Outcome {
 							}
 						}
 					}
-				case "purge":
+				case "purge", "purge-refill":
 					if st.PurgeMessages(box) == nil {
 						for _, w := range all {
 							if w.box == box {
 								w.gone = true
+							}
+						}
+					}
+					if in.K == "purge-refill" {
+						// new mail right after the purge: must survive whatever the scan still holds
+						for k := 0; k <= in.N%4; k++ {
+							body := []byte("Subject: after purge\r\n\r\nyoung\r\n")
+							if id, err := st.AddMessage(hx.NewDelivery(box, nil, nil, time.Now(), "young", body)); err == nil {
+								all = append(all, &want{box: box, id: id, body: body})
 							}
 						}
 					}
